@@ -603,8 +603,9 @@ def run_task(task):
                 for m in (0, 1, 3, 7, 256, -2):
                     jobs.append({"fn": "swap_multiples", "arg": x.hex(), "m": m})
             model = {"interleave": m_interleave, "deinterleave": m_deinterleave, "flip_msb": m_flip}
-            for flag in ("-O", "-OO"):
-                got = optrun.run(jobs, flag)
+            for flag in ("-O", "-OO", "first_use", "first_use", "first_use", "first_use"):
+                # "first_use": the jobs are the library's first calls in a fresh interpreter, from 8 threads at once
+                got = optrun.run(jobs, flag) if flag != "first_use" else optrun.run(jobs, "-B", threads=8)
                 for job, g in zip(jobs, got):
                     x = bytes.fromhex(job["arg"])
                     if job["fn"] == "swap_multiples":
@@ -612,8 +613,12 @@ def run_task(task):
                     else:
                         exp = model[job["fn"]](x).hex()
                     if g != exp:
+                        if flag == "first_use":
+                            raise Violation("independent_of_concurrent_first_use",
+                                            {"op": "opt", "job": job, "flag": flag, "jobs": jobs}, exp, g)
                         raise Violation("holds_under_optimized_interpreter", {"op": "opt", "job": job, "flag": flag}, exp, g)
-                res.extra["optimized_interpreter_calls"] = res.extra.get("optimized_interpreter_calls", 0) + len(jobs)
+                key = "concurrent_first_use_calls" if flag == "first_use" else "optimized_interpreter_calls"
+                res.extra[key] = res.extra.get(key, 0) + len(jobs)
             return res
         if kind == "long":
             for L in (255, 256, 257, 2049, 64008, 64009, 65536, 65537, 70001):
@@ -737,14 +742,17 @@ def finalize(merged, tier):
 def replay(case):
     if case.get("op") == "opt":
         from vlib import optrun
-        job = case["job"]
-        x = bytes.fromhex(job["arg"])
-        g = optrun.run([job], case["flag"])[0]
-        if job["fn"] == "swap_multiples":
-            exp = "raised ValueError" if job["m"] < 0 else (x if job["m"] == 0 else m_swap(x, job["m"])).hex()
-        else:
-            exp = {"interleave": m_interleave, "deinterleave": m_deinterleave, "flip_msb": m_flip}[job["fn"]](x).hex()
-        if g != exp:
-            raise Violation("holds_under_optimized_interpreter", case, exp, g)
+        jobs = case.get("jobs") or [case["job"]]
+        for _ in range(5 if case["flag"] == "first_use" else 1):
+            got = optrun.run(jobs, "-B", threads=8) if case["flag"] == "first_use" else optrun.run(jobs, case["flag"])
+            for job, g in zip(jobs, got):
+                x = bytes.fromhex(job["arg"])
+                if job["fn"] == "swap_multiples":
+                    exp = "raised ValueError" if job["m"] < 0 else (x if job["m"] == 0 else m_swap(x, job["m"])).hex()
+                else:
+                    exp = {"interleave": m_interleave, "deinterleave": m_deinterleave, "flip_msb": m_flip}[job["fn"]](x).hex()
+                if g != exp:
+                    raise Violation("independent_of_concurrent_first_use" if case["flag"] == "first_use"
+                                    else "holds_under_optimized_interpreter", case, exp, g)
         return
     _dispatch(loader.core(), case)
